@@ -25,8 +25,8 @@ import (
 )
 
 type c15Racer struct {
-	Name int `json:"name,omitempty"` // 0 keeps the name, i picks c15RaceNames[i-1]
-	Data int `json:"data,omitempty"`
+	Name int  `json:"name,omitempty"` // 0 keeps the name, i picks c15RaceNames[i-1]
+	Data int  `json:"data,omitempty"`
 	Del  bool `json:"del,omitempty"`
 }
 
